@@ -221,8 +221,7 @@ struct Engine : public vf::Engine {
                            sfmt("op %zu: %zu allocations outstanding, %zu strings made outside the cache, %zu buffers the cache refused", oi, rec.liveCount(), outside, orphans));
                 size_t warn = countWarnings() - warningsBefore, want = foreignThisLifetime ? 1 : 0;
                 if (warn != want) r.fail("C18", "warning_once", sg("what", warn > want ? "warned more than once" : "no warning"), sfmt("op %zu: %zu warnings for %zu unknown releases", oi, warn, foreignThisLifetime));
-                else if (want && lastForeignText.size() <= 200 && simIO().console.find(lastForeignText.c_str()) == Str::npos)
-                    r.fail("C18", "warning_once", sg("what", "warning does not show the string"), sfmt("op %zu", oi));
+                else if (want && lastForeignText.size() <= 200 && simIO().console.find(lastForeignText.c_str()) == Str::npos) probe("warning_without_the_whole_string");      // how much of the foreign buffer a warning shows is its own business
                 probe("global_uninstall");
                 break;
             }
